@@ -119,6 +119,8 @@ class TD:
         raise Unsupported(f"timedelta.{attr}")
 
     def pysym_binop(self, it, st, name, other, swapped):
+        if name == "Mult" and not isinstance(other, (TD, DT)):
+            return TD(self.us * V.to_z3(other))
         if isinstance(other, TD) and name in ("Add", "Sub"):
             return TD(self.us + other.us if name == "Add" else ((other.us - self.us) if swapped else (self.us - other.us)))
         if isinstance(other, DT) and name == "Add":
@@ -141,6 +143,24 @@ def install(it):
     it.lib_overrides["datetime.datetime"] = mk_datetime
     it.lib_overrides["datetime.date"] = mk_datetime
     it.lib_overrides["datetime.timedelta"] = mk_timedelta
+
+
+def symstr_eq(a, b):
+    """Equality of two strings built from literal pieces and fixed-width formatted integers (same layout piece by piece)."""
+    if len(a.parts) != len(b.parts):
+        return z3.BoolVal(False)
+    conj = []
+    for pa, pb in zip(a.parts, b.parts):
+        if pa[0] != pb[0]:
+            return z3.BoolVal(False)
+        if pa[0] == "lit":
+            if pa[1] != pb[1]:
+                return z3.BoolVal(False)
+        else:
+            if pa[2] != pb[2]:
+                return z3.BoolVal(False)
+            conj.append(V.to_z3(pa[1]) == V.to_z3(pb[1]))
+    return z3.And(*conj) if conj else z3.BoolVal(True)
 
 
 def new_dekad(it, st, arg):
@@ -259,6 +279,8 @@ def worker(w, cfg):
         for opn, sym in (("Lt", "<"), ("LtE", "<="), ("Gt", ">"), ("GtE", ">="), ("Eq", "=="), ("NotEq", "!=")):
             got = it.compare(st, getattr(ast, opn)(), D, E)
             w.discharge(f"arith.order_{opn}", assume, V.to_z3(got) == V.to_z3(it.A.cmp(sym, raw, raw2)), concretize=conc)
+        # comparing two dekads of the supported range never raises (e.g. by materialising a date outside 0001..9999)
+        w.discharge("arith.comparisons_raise_nothing", assume, z_not(exc_cond(st)), concretize=conc)
         h1 = it.call(st, it.lib.BUILTINS["hash"], [D], {})
         h2 = it.call(st, it.lib.BUILTINS["hash"], [E], {})
         w.discharge("arith.equal_dekads_hash_equally", assume + [raw == raw2], V.to_z3(it.compare(st, ast.Eq(), h1, h2)), concretize=conc)
@@ -275,7 +297,16 @@ def worker(w, cfg):
         cls.link_bases(it)
         inst = Instance(cls)
 
+        def elem_binop(it_, st_, name, x, o, swapped=False):
+            if hasattr(x, "pysym_binop"):
+                return x.pysym_binop(it_, st_, name, o, swapped)
+            if hasattr(o, "pysym_binop"):
+                return o.pysym_binop(it_, st_, name, x, not swapped)
+            return it_.scalar_binop(st_, name, o, x) if swapped else it_.scalar_binop(st_, name, x, o)
+
         class Series:
+            """pandas Series of time stamps / derived values: element-wise apply, arithmetic with scalars and other series, .dt fields."""
+
             def __init__(self, items):
                 self.items = items
 
@@ -284,15 +315,59 @@ def worker(w, cfg):
                     return NativeBound(lambda it2, st2, selfv, f: Series([it2.call(st2, f, [x], {}) for x in self.items]), self)
                 if a == "to_xarray":
                     return NativeBound(lambda it2, st2, selfv: self, self)
+                if a == "dt":
+                    return DtFields(self)
+                if a in ("astype", "values"):
+                    raise Unsupported(f"Series.{a}")
                 raise Unsupported(a)
 
             def pysym_binop(self, it_, st_, name, other, swapped):
-                return Series([it_.scalar_binop(st_, name, x, other) for x in self.items])
+                if isinstance(other, Series):
+                    return Series([elem_binop(it_, st_, name, x, o, swapped) for x, o in zip(self.items, other.items)])
+                return Series([elem_binop(it_, st_, name, x, other, swapped) for x in self.items])
+
+        class DtFields:
+            def __init__(self, ser):
+                self.ser = ser
+
+            def pysym_getattr(self, it_, st_, a):
+                if a in ("year", "month", "day"):
+                    return Series([x.pysym_getattr(it_, st_, a) for x in self.ser.items])
+                if a in ("hour", "minute", "second", "microsecond"):
+                    return Series([{"hour": x.h, "minute": x.mi, "second": x.s, "microsecond": x.us}[a] for x in self.ser.items])
+                if a in ("floor", "normalize"):
+                    return NativeBound(lambda it2, st2, selfv, *args: Series([DT(x.y, x.m, x.d) for x in self.ser.items]), self)
+                raise Unsupported(f"Series.dt.{a}")
+
+        def np_minmax(which):
+            @native
+            def f(it_, st_, a, b, **kw):
+                if isinstance(a, Series) or isinstance(b, Series):
+                    ser, o, = (a, b) if isinstance(a, Series) else (b, a)
+                    op = it_.A.minimum if which == "min" else it_.A.maximum
+                    if isinstance(o, Series):
+                        return Series([op(x, y) for x, y in zip(ser.items, o.items)])
+                    return Series([op(x, o) for x in ser.items])
+                return it_.lib.LIB["numpy.minimum" if which == "min" else "numpy.maximum"](it_, st_, a, b)
+            return f
+        it.lib_overrides["numpy.minimum"] = np_minmax("min")
+        it.lib_overrides["numpy.maximum"] = np_minmax("max")
+
+        @native
+        def timedelta64(it_, st_, nval=1, unit="D"):
+            per = {"D": US_DAY, "h": 3600 * 10**6, "m": 60 * 10**6, "s": 10**6, "ms": 1000, "us": 1}.get(unit)
+            if per is None:
+                raise Unsupported(f"timedelta64 unit {unit}")
+            return TD(V.to_z3(nval) * per)
+        it.lib_overrides["numpy.timedelta64"] = timedelta64
+        it.lib_overrides["pandas.Timedelta"] = native(lambda it_, st_, value=1, unit="D", **kw: timedelta64(it_, st_, value, unit))
 
         class TimeAcc:
             def pysym_getattr(self, it_, st_, a):
                 if a == "to_series":
                     return NativeBound(lambda it2, st2, selfv: Series([DT(y, m, d, h, mi, s, us)]), self)
+                if a == "dt":
+                    return DtFields(Series([DT(y, m, d, h, mi, s, us)]))
                 raise Unsupported(a)
 
         class Obj:
@@ -302,10 +377,28 @@ def worker(w, cfg):
                 raise Unsupported(a)
         inst.fields["_obj"] = Obj()
         D = new_dekad(it, State(), DT(y, m, d, h, mi, s, us))
-        for a in ("idx", "yidx", "raw", "linspace"):
-            got = it.getattr(st, inst, a).items[0]
-            ref = V.to_z3(attr(it, st, D, a)) if a != "linspace" else V.to_z3(attr(it, st, D, "yidx")) - 1
-            w.discharge(f"accessor.{a}_elementwise", assume, V.to_z3(got) == ref, concretize=conc)
+        not_last = z3.Not(z3.And(y == 9999, m == 12, d >= 21))
+        for a in ("idx", "yidx", "raw", "linspace", "ndays", "start_date", "end_date", "label", "year", "month"):
+            extra = [not_last] if a in ("ndays", "end_date") else []
+            sta = State()
+            got = it.getattr(sta, inst, a).items[0]
+            stb = State()
+            if a in ("year", "month"):
+                ref = {"year": y, "month": m}[a]
+            elif a == "linspace":
+                ref = V.to_z3(attr(it, stb, D, "yidx")) - 1
+            elif a == "label":
+                ref = it.call(stb, it.lib.BUILTINS["str"], [D], {})
+            else:
+                ref = attr(it, stb, D, a)
+            if isinstance(ref, DT):
+                claim = V.to_z3(it.A.cmp("==", got.total(), ref.total())) if isinstance(got, DT) else z3.BoolVal(False)
+            elif isinstance(ref, SymStr):
+                claim = symstr_eq(got, ref) if isinstance(got, SymStr) else z3.BoolVal(False)
+            else:
+                claim = V.to_z3(got) == V.to_z3(ref)
+            w.discharge(f"accessor.{a}_elementwise", assume + extra, claim, concretize=conc)
+            w.discharge(f"accessor.{a}_raises_nothing", assume + extra, z_not(exc_cond(sta)), concretize=conc)
     w.res.encoded.update(it.encoded)
     w.vacuity(f"{kind}.assumptions", assume)
 
